@@ -75,6 +75,8 @@ def mutants(prog):
         ("core center_crop offset", CI, "center_crop", "crop = (n // 2 for n in crop)", "crop = ((n + 1) // 2 for n in crop)", "T13."),
         ("grid center_crop offset", G, "Grid.center_crop", "origin = [(m - n) // 2 for m, n in zip(self.size(), size)]", "origin = [(m - n + 1) // 2 for m, n in zip(self.size(), size)]", "T13."),
         ("make_instance drops grids", DI, "ImageBatch.crop", "return self._make_instance(data, grid)", "return self._make_instance(data, self._grid)", "T13."),
+        ("flow sample: GRID vectors not re-expressed", "deepali.data.flow", "FlowFields.sample", "if axes != Axes.WORLD:", "if axes in (Axes.CUBE, Axes.CUBE_CORNERS):", "T10x.sample"),
+        ("origin_: internal float size", G, "Grid.origin_", "size = self.size_tensor()", "size = self._size", "fractional-size"),
     ]
     for name, mod, fn, old, new, expect in specs:
         ov = source_sub(prog, mod, fn, old, new)
